@@ -1,6 +1,6 @@
 ----------------------------- MODULE Export_C03 -----------------------------
 EXTENDS U_C03, Json, IOUtils
-ASSUME JsonSerialize(IOEnv.JASM_OUT, [i |-> Universe, o |-> UniverseO, d |-> UniverseD])
+ASSUME JsonSerialize(IOEnv.JASM_OUT, [i |-> Universe, o |-> UniverseO, d |-> UniverseD, w |-> UniverseW])
 VARIABLE x
 Init == x = 0
 Next == x' = x
